@@ -437,13 +437,16 @@ class GenInv:
         r = self.r
         if depth <= 0 or r.random() < 0.2:
             return self.leaf(n, cplx)
-        opts = ["Prod", "Prod", "Sum", "Transp", "Adj", "BDiag", "leaf"]
+        opts = ["Prod", "Prod", "Sum", "Transp", "Adj", "BDiag", "leaf", "Scaled"]
         if n >= 2:
             opts += ["Kron", "Kron", "BDiag", "ProdNS", "Sliced", "Concat"]
         k = r.choice(opts)
         d = depth - 1
         if k == "leaf":
             return self.leaf(n, cplx)
+        if k == "Scaled":   # c * A  and  A * c  (the most common way to write a scalar multiple)
+            sc = dict(k="Scal", dt=self.dt(cplx), c=self.val(cplx, -3, 3, nz=True), n=n)
+            return dict(k="Prod", ms=[sc, self.tree(n, d, cplx)], via=("mul" if r.random() < 0.6 else None))
         if k == "Prod":
             ms = [self.tree(n, d, cplx) for _ in range(r.randint(2, 3))]
             via = None
